@@ -217,6 +217,8 @@ def boot():
     return
   logging.disable(logging.CRITICAL)
   import pox.lib.util as U
+  if not hasattr(U, "_pvf_real_make_pinger"):
+    U._pvf_real_make_pinger = U.make_pinger      # kept for drivers that run the real PipePinger over a virtual pipe
   U.makePinger = FakePinger
   U.make_pinger = FakePinger
   import pox.lib.recoco as RP
